@@ -1187,6 +1187,9 @@ CURATED = [
     (2, LOGON_A + [[2, 0, 0, 0, 1, 0], [2, 0, 0, 0, 2, 0], [1, 3, 2, 0, 2, 0], [1, 3, 3, 0, 2, 0], [2, 0, 0, 0, 3, 0]]),
     (2, LOGON_A + [[2, 0, 0, 0, 1, 0], [2, 0, 0, 0, 2, 0], [1, 3, 2, 0, 3, 0], [1, 3, 3, 0, 2, 0]]),
     (2, LOGON_A + [[2, 0, 0, 0, 1, 0], [1, 3, 2, 0, 6, 0], [2, 0, 0, 0, 2, 0]]),
+    # bounded request (no tail gap fill beyond EndSeqNo); a hole before a replayed row (row 2 lost to a refused journal write)
+    (2, LOGON_A + [[2, 0, 0, 0, 1, 0], [2, 0, 0, 0, 2, 0], [2, 0, 0, 0, 3, 0], [1, 3, 2, 0, 2, 3], [1, 3, 3, 0, 3, 3]]),
+    (2, LOGON_A + [[2, 4, 2, 0, 4, 0], [2, 0, 0, 0, 1, 0], [2, 0, 0, 0, 2, 0], [1, 3, 2, 0, 1, 0]]),
     (2, LOGON_A + [[2, 0, 0, 0, 1, 0], [1, 3, 2, 0, 0, 0], [2, 0, 0, 0, 2, 0]]),
     (1, LOGON_I + [[2, 0, 0, 0, 1, 0], [1, 2, 2, 0, 5, 0], [2, 0, 0, 0, 2, 0], [1, 3, 3, 0, 1, 0]]),
     # D20: application-sent SequenceReset (gap fill: not journaled, number not consumed; reset mode: journaled under its
